@@ -963,7 +963,7 @@ HISTORY_STEPS = [
 
 
 @st.composite
-def history_program(draw, max_steps=14, max_elems=16, with_shape_assign=True):
+def history_program(draw, max_steps=14, max_elems=16, with_shape_assign=True, with_fail=False):
     b = Builder(draw, max_elems=max_elems, allow_int=False)
     b.views_tensors_only = True
     nleaves = draw(st.integers(1, 3))
@@ -975,6 +975,8 @@ def history_program(draw, max_steps=14, max_elems=16, with_shape_assign=True):
         b.leaf(kind, shape)
     nsteps = draw(st.integers(2, max_steps))
     fns = [f for f, w in HISTORY_STEPS for _ in range(w) if with_shape_assign or f is not step_shape_assign]
+    if with_fail:
+        fns = fns + [step_fail] * 7
     made = 0
     attempts = 0
     while made < nsteps and attempts < nsteps * 3:
@@ -983,3 +985,134 @@ def history_program(draw, max_steps=14, max_elems=16, with_shape_assign=True):
         if f(b) is not None:
             made += 1
     return b
+
+
+# ------------------------------------------------------------------------------- failing statements (C13)
+
+FAIL_KINDS = ["op_shape", "bad_axis", "view_bad_index", "view_bad_reshape", "view_bad_perm", "setitem_shape",
+              "setitem_oob", "out_shape", "readonly_target", "aug_shape", "constant_false_int", "cast_out",
+              "bad_dtype", "matmul_shape"]
+
+
+def _ref_rejects(b: Builder, stmt):
+    """True iff the NumPy reference raises on `stmt`.  Tried on a scratch copy of the reference
+    state, so the real reference is untouched either way."""
+    import copy
+
+    r = b.ref
+    scratch = RefRun(b.prog)
+    for name in ("owner", "const", "is_tensor", "isint", "famver", "D", "created_at", "last_write", "imap", "nwrites"):
+        setattr(scratch, name, copy.copy(getattr(r, name)))
+    # arrays: copy, but keep read-only flags (needed for the read-only-target failure kind)
+    scratch.env = {}
+    for h, v in r.env.items():
+        c = v.copy()
+        c.flags.writeable = v.flags.writeable
+        scratch.env[h] = c
+    try:
+        with np.errstate(all="ignore"):
+            scratch.exec(len(b.stmts), stmt)
+    except Exception:
+        return True
+    return False
+
+
+def step_fail(b: Builder):
+    d = b.draw
+    kind = d(st.sampled_from(FAIL_KINDS))
+    r = b.ref
+    tens = [h for h in r.env if r.is_tensor[h] and not r.isint[h]]
+    if not tens:
+        return None
+    a = b.pick(tens)
+    shp = b.shape(a)
+    nd = len(shp)
+    inner = None
+    special = False
+    if kind == "op_shape":
+        if nd == 0 or shp[-1] < 2:
+            return None
+        c = b.leaf(d(st.sampled_from(["array", "var"])), [shp[-1] + 1])
+        name = d(st.sampled_from(["add", "multiply", "op_add", "maximum", "divide"]))
+        inner = {"k": "op", "h": -1, "op": name, "args": [a, c]}
+    elif kind == "matmul_shape":
+        if nd == 0:
+            return None
+        c = b.leaf("var", [shp[-1] + 1, 2])
+        inner = {"k": "op", "h": -1, "op": "matmul", "args": [a, c]}
+    elif kind == "bad_axis":
+        name = d(st.sampled_from(["sum", "mean", "max", "var", "prod", "cumsum", "softmax"]))
+        inner = {"k": "op", "h": -1, "op": name, "args": [a], "p": {"axis": nd + d(st.integers(0, 1))}}
+        if nd == 0 and name in ("cumsum", "softmax"):
+            return None
+    elif kind == "view_bad_index":
+        if nd == 0:
+            idx = {"t": False, "c": [["i", 0]]}
+        else:
+            idx = {"t": False, "c": [["i", shp[0] + d(st.integers(0, 2))]]}
+        inner = {"k": "op", "h": -1, "op": "getitem", "args": [a], "p": {"index": idx}}
+    elif kind == "view_bad_reshape":
+        size = int(np.prod(shp)) if nd else 1
+        inner = {"k": "op", "h": -1, "op": "reshape", "args": [a], "p": {"shape": [size + 1]}}
+    elif kind == "view_bad_perm":
+        if nd < 2:
+            return None
+        inner = {"k": "op", "h": -1, "op": "transpose", "args": [a], "p": {"axes": [0] * nd}}
+    elif kind in ("setitem_shape", "setitem_oob", "aug_shape", "out_shape"):
+        targets = writable_targets(b)
+        t = b.pick(targets)
+        if t is None:
+            return None
+        tshp = b.shape(t)
+        if len(tshp) == 0 or tshp[-1] < 1:
+            return None
+        bad = b.leaf(d(st.sampled_from(["array", "var"])), [tshp[-1] + 1 + d(st.integers(0, 1))])
+        if kind == "setitem_shape":
+            inner = {"k": "inplace", "kind": "setitem", "target": t, "args": [bad],
+                     "p": {"index": {"t": False, "c": [["e"]]}}}
+        elif kind == "setitem_oob":
+            v = b.scalar_leaf()
+            inner = {"k": "inplace", "kind": "setitem", "target": t, "args": [v],
+                     "p": {"index": {"t": False, "c": [["i", tshp[0] + d(st.integers(0, 1))]]}}}
+        elif kind == "aug_shape":
+            inner = {"k": "inplace", "kind": "aug", "op": d(st.sampled_from(["add", "multiply", "subtract"])),
+                     "target": t, "args": [bad]}
+        else:
+            p = {}
+            if d(st.booleans()):
+                p["via"] = "np"
+            inner = {"k": "inplace", "kind": "out", "op": "add", "target": t, "args": [t, bad], "p": p}
+    elif kind == "readonly_target":
+        ro = [h for h, v in r.env.items() if r.is_tensor[h] and not r.isint[h] and not v.flags.writeable and v.size > 0]
+        if not ro:
+            return None
+        t = b.pick(ro)
+        v = b.scalar_leaf()
+        inner = {"k": "inplace", "kind": "setitem", "target": t, "args": [v],
+                 "p": {"index": {"t": False, "c": [["e"]]}}}
+    elif kind == "bad_dtype":
+        inner = {"k": "op", "h": -1, "op": "add_dtype", "args": [a, a], "p": {"dtype": "not_a_dtype"}}
+        special = True
+    elif kind == "constant_false_int":
+        it = b.leaf("inttensor", [2])
+        ia = b.leaf("intarray", [2])
+        inner = {"k": "op", "h": -1, "op": d(st.sampled_from(["add", "multiply"])), "args": [it, ia], "constant": False}
+        special = True
+    elif kind == "cast_out":
+        it = b.leaf("inttensor", [2])
+        fl = b.leaf("array", [2])
+        inner = {"k": "inplace", "kind": "out", "op": "add", "target": it, "args": [it, fl], "p": {}}
+        # numpy: np.add(int_arr, float_arr, out=int_arr) -> UFuncTypeError (same_kind casting)
+        try:
+            x = np.arange(2)
+            np.add(x, np.ones(2), out=x)
+            return None
+        except TypeError:
+            special = True
+    if inner is None:
+        return None
+    if not special and not _ref_rejects(b, inner):
+        return None
+    b.stmts.append({"k": "fail", "why": kind, "stmt": inner})
+    b.labels.add("fail_" + kind)
+    return -1
